@@ -246,6 +246,11 @@ func buildGrammar() {
 		a.PartitionKey, a.SequenceKeyDelta = oxh.Str("q"), []uint64{1}
 		return onePut(a)
 	})
+	add("seqput", "seqput(q/s,pk,[1,1])", true, func() *proto.WriteRequest {
+		a := put("q/s", "v")
+		a.PartitionKey, a.SequenceKeyDelta = oxh.Str("q"), []uint64{1, 1}
+		return onePut(a)
+	})
 	add("seqput", "seqput(<empty key>,pk,[1])", true, func() *proto.WriteRequest {
 		a := put("", "v")
 		a.PartitionKey, a.SequenceKeyDelta = oxh.Str("q"), []uint64{1}
@@ -257,7 +262,16 @@ func buildGrammar() {
 		return onePut(a)
 	})
 	// --- plain puts of keys that look like members of the sequence "p"
-	for _, k := range []string{"p", "p-5", "p-x", "p-!", "p-", "p-0x", "p+x-y", seq1, seq2, seq4, "p-18446744073709551615", "+a-b", "q/s-1", "q/s-z"} {
+	for _, k := range []string{"p", "p-5", "p-x", "p-!", "p-", "p-0x", "p+x-y", seq1, seq2, seq4, "p-18446744073709551615", "+a-b", "q/s-1", "q/s-z",
+		// numeric-overflow shapes: all digits (or nearly) but not a 64-bit sequence number. Whether the lookup picks them as
+		// the last key of the sequence depends on how they sort against "<prefix>-18446744073709551615."
+		"p-18446744073709551616", "p-99999999999999999999", // 20 digits above MaxUint64
+		"p-000000000000000000001", "p-100000000000000000000", // 21 digits starting with 0 / 1
+		"p-0000000000000000000000001", "p-1000000000000000000000000", // 25 digits
+		"p-+5", "p--5", "p- 5", "p-5 ", "p-0x10", "p-\u0665", "p-\uff15", // signs, spaces, hex prefix, Arabic-Indic and full-width digit
+		seq1 + "-99999999999999999999", seq1 + "-100000000000000000000", // second part overflows
+		"q/s-100000000000000000000", "q/s-99999999999999999999", "q/s-00000000000000000001-100000000000000000000", // second prefix
+	} {
 		k := k
 		add("lookalike", fmt.Sprintf("put(%q)", k), true, func() *proto.WriteRequest { return onePut(put(k, "plain")) })
 	}
